@@ -33,7 +33,7 @@ type Profile struct {
 }
 
 var Profiles = map[string]Profile{
-	"general": {Types: []string{"T1", "T2", "T3", "T4", "U1"}, Ifaces: []string{"I1"}, Names: []string{"", "", "a", "b"}, Subs: []string{"", "", "s", "t"},
+	"general": {Types: []string{"T1", "T2", "T3", "T4", "U1"}, Ifaces: []string{"I1"}, Names: []string{"", "", "a", "b"}, Subs: []string{"", "", "", "s", "s", "t", "s=x"},
 		MaxIn: 2, MaxOut: 2, MaxTIn: 3, MaxInputs: 3, MaxConvs: 4, Forms: []string{"pos", "struct", "ptr", "built"}, FailProb: 0.1, OnceProb: 0.15,
 		MultiMax: -1, Modes: []string{"call"}, GenProb: 0.05, DefProb: 0.15, TargetOuts: 2},
 	"nosub": {Types: []string{"T1", "T2", "T3", "T4"}, Ifaces: []string{"I1"}, Names: []string{"", "", "a", "b"}, Subs: []string{""},
@@ -66,7 +66,7 @@ var Profiles = map[string]Profile{
 	"built": {Types: []string{"T1", "T2", "T3", "T4"}, Ifaces: []string{"I1"}, Names: []string{"", "", "a", "b"}, Subs: []string{"", "", "s"},
 		MaxIn: 2, MaxOut: 2, MaxTIn: 3, MaxInputs: 3, MaxConvs: 4, Forms: []string{"built"}, FailProb: 0.15, OnceProb: 0.15,
 		MultiMax: -1, Modes: []string{"call", "call", "call", "redefine"}, TargetOuts: 2},
-	"wild": {Types: []string{"T1", "T2", "T3", "T4", "T5", "U1"}, Ifaces: []string{"I1", "I2"}, Names: []string{"", "", "a", "b", "c"}, Subs: []string{"", "", "s", "t"},
+	"wild": {Types: []string{"T1", "T2", "T3", "T4", "T5", "U1"}, Ifaces: []string{"I1", "I2"}, Names: []string{"", "", "a", "b", "c"}, Subs: []string{"", "", "", "s", "s", "t", "s=x"},
 		MaxIn: 3, MaxOut: 3, MaxTIn: 3, MaxInputs: 4, MaxConvs: 5, Forms: []string{"pos", "struct", "ptr", "built"}, FailProb: 0.1, OnceProb: 0.2,
 		MultiMax: -1, Modes: []string{"call", "call", "convert", "redefine"}, GenProb: 0.15, DefProb: 0.2, BadProb: 0.1, DupInputs: true, TargetOuts: 2},
 }
